@@ -6,6 +6,11 @@ import SonicSpec.Proofs.DirSkip
 namespace SonicSpec.Dir
 open SonicSpec SonicSpec.Go SonicSpec.Json SonicSpec.Bind SonicSpec.Stream
 
+/-- the dynamic type is not a pointer (what the generic decoder stores) -/
+def notPtrT : GoType → Bool
+  | .ptr _ => false
+  | _ => true
+
 mutual
 /-- `v` has the shape of a value of type `T` (sub-universe of the theorem) -/
 def WT : GoType → GoVal → Bool
@@ -15,6 +20,8 @@ def WT : GoType → GoVal → Bool
   | .str, .str _ => true
   | .f32, .f32 _ => true
   | .f64, .f64 _ => true
+  | .any, .nil => true
+  | .any, .any t _ => notPtrT t
   | .ptr _, .nil => true
   | .ptr t, .ptr v => WT t v
   | .sl _, .nil => true
@@ -87,6 +94,7 @@ theorem wt_zero : ∀ (T : GoType), Sub T = true → WT T (zeroOf T) = true
   | .str, _ => by simp [zeroOf, WT]
   | .f32, _ => by simp [zeroOf, WT]
   | .f64, _ => by simp [zeroOf, WT]
+  | .any, _ => by simp [zeroOf, WT]
   | .ptr _, _ => by simp [zeroOf, WT]
   | .sl _, _ => by simp [zeroOf, WT]
   | .arr n t, h => by
@@ -97,7 +105,7 @@ theorem wt_zero : ∀ (T : GoType), Sub T = true → WT T (zeroOf T) = true
     simp only [Sub, Bool.and_eq_true] at h
     simp only [zeroOf, WT]
     exact wt_zeroF fs h.1
-  | .num, h | .bytes, h | .raw, h | .any, h | .map _ _, h | .lib _, h => by simp [Sub] at h
+  | .num, h | .bytes, h | .raw, h | .map _ _, h | .lib _, h => by simp [Sub] at h
 theorem wt_zeroF : ∀ (fs : List (String × Option Bytes × GoType)), SubF fs = true → WTf fs (zeroFields fs) = true
   | [], _ => by simp [zeroFields, WTf]
   | (n, tg, t) :: fs, h => by
